@@ -144,6 +144,11 @@ pub fn replay(case: &serde_json::Value) -> i32 {
     let sched: Sched = serde_json::from_value(case["sched"].clone()).expect("bad replay: sched");
     let reference = run_scenario(&s, &Ctl::benign(), CreatorErr::Io);
     match run_schedule(&s, &sched, &reference).1 {
+        Err(e) if e.starts_with("harness: nondeterministic replay") => {
+            println!("the recorded schedule does not fit this tree (its I/O call sequence differs from the one the schedule was recorded on): {e}");
+            println!("NOT-REPRODUCED: re-run ./check C11 quick on this tree instead");
+            2
+        }
         Ok(()) => {
             println!("replay: scheduled run identical to the reference run ({} public calls)", reference.len());
             0
